@@ -349,6 +349,90 @@ impl<'a> Case<'a> {
 		}
 	}
 
+	/// C07 / C14 value iteration against the byte-level model (`ValueIter.c06Step` on the tables of
+	/// the `c06 t` state): the callback sequence of the REAL `iter_column_while` in callback order,
+	/// each value mapped to its STORED form (the model has the stored bytes; the stored form is
+	/// recomputed here from the value the crate handed out, with the crate's compressor), and the
+	/// skipped / reported slots read from the raw table files.
+	fn iter_tie(&mut self, t: &mut Trace, ctr: &mut Counters, stage: &'static str) {
+		if self.btree || !self.ok {
+			return
+		}
+		ctr.inc("iter.cases");
+		let mut vals: Vec<(u32, Vec<u8>)> = vec![];
+		let r = self.sut.db().iter_column_while(0, |s| {
+			vals.push((s.rc, s.value));
+			true
+		});
+		let seq: Vec<String> = vals
+			.iter()
+			.map(|(rc, v)| {
+				let (stored, flag, _, _) = stored_form(&self.cfg, v);
+				format!("{}:{}:{}{}", rc, stored.len(), fnv(&stored, FNV_INIT), if flag { ":c" } else { "" })
+			})
+			.collect();
+		let obs = match r {
+			Ok(()) => format!("n={} {}", seq.len(), if seq.is_empty() { "-".to_string() } else { seq.join(",") }),
+			Err(e) => format!("err:{}", err_kind(&e)),
+		};
+		ctr.add("iter.items", seq.len() as u64);
+		ctr.add("iter.items_compressed", seq.iter().filter(|x| x.ends_with(":c")).count() as u64);
+		t.op("c06 t iter", &obs);
+		// skipped and reported slots from the raw files
+		let st = match self.cx.states(&self.sut) {
+			Ok(s) => s,
+			Err(e) => {
+				self.fail(t, format!("iter_tie at {}: {}", stage, e));
+				return
+			},
+		};
+		let (mut tomb, mut parts) = (0u64, 0u64);
+		let mut heads: Vec<String> = vec![];
+		let mut tiers = 0u64;
+		for (tier, (es, filled, _, _)) in &st {
+			let multipart = *es as usize == MULTIPART_ENTRY && (*tier as usize) >= self.cx.sizes.len();
+			let mut hit = false;
+			for i in 1..*filled {
+				let raw = match self.sut.db().verif_table_entry(self.cx.col, *tier, i) {
+					Ok(r) => r,
+					Err(e) => {
+						self.fail(t, format!("iter_tie at {}: verif_table_entry: {:?}", stage, e));
+						return
+					},
+				};
+				let m = [raw[0], raw[1]];
+				if m == [0xff, 0xff] {
+					tomb += 1;
+				} else if multipart && !(m == [0xfd, 0xff] || m == [0xfd, 0x7f]) {
+					parts += 1;
+				} else {
+					let off = (if multipart { 10 } else { 2 }) + if self.cx.rc { 4 } else { 0 };
+					heads.push(format!("{}:{}:{}", tier, i, hex(&raw[off..off + 26])));
+					hit = true;
+				}
+			}
+			if hit {
+				tiers += 1;
+			}
+		}
+		ctr.add("iter.tombstones_skipped", tomb);
+		ctr.add("iter.parts_skipped", parts);
+		ctr.add("iter.tiers_hit", tiers);
+		if tomb > 0 {
+			ctr.inc("iter.cases_with_tombstone");
+		}
+		if parts > 0 {
+			ctr.inc("iter.cases_with_multipart");
+		}
+		if heads.len() != seq.len() {
+			self.fail(t, format!("iter_tie at {}: iter_column_while reports {} values, the table files hold {} live heads", stage, seq.len(), heads.len()));
+		}
+		t.op(
+			"c06 t iterd",
+			&format!("tomb={} parts={} tiers={} {}", tomb, parts, tiers, if heads.is_empty() { "-".to_string() } else { heads.join(",") }),
+		);
+	}
+
 	fn drain(&mut self, t: &mut Trace) -> bool {
 		let mut guard = 0;
 		while self.sut.queued > 0 && guard < 64 {
@@ -840,6 +924,7 @@ fn run_case(seed: u64, thorough: bool, root: &Path, t: &mut Trace, ctr: &mut Cou
 				c.check_key(t, ctr, &k, "reopened");
 			}
 			c.check_iter(t, ctr, "reopened");
+			c.iter_tie(t, ctr, "reopened");
 			if let Ok(st) = c.cx.states(&c.sut) {
 				let all: Vec<u8> = st.keys().copied().collect();
 				c.t2_slots(t, ctr, &st, &all);
@@ -852,6 +937,7 @@ fn run_case(seed: u64, thorough: bool, root: &Path, t: &mut Trace, ctr: &mut Cou
 			c.check_key(t, ctr, &k, "enacted");
 		}
 		c.check_iter(t, ctr, "enacted");
+		c.iter_tie(t, ctr, "enacted");
 	}
 	if c.ok {
 		release_cycles(&mut c, t, ctr, &keys);
